@@ -18,12 +18,18 @@ pub struct Shrinker<'a, 'b> {
     pub samples: usize,
     pub executions: usize,
     pub budget: usize,
+    /// wall-clock cap for the whole minimisation (a hanging node costs one watchdog period per execution)
+    pub deadline: std::time::Instant,
 }
 
 impl<'a, 'b> Shrinker<'a, 'b> {
     /// Execute `steps` and return the matching violation, if it still fires.
     pub fn fires(&mut self, steps: &[Step]) -> Result<Option<(Violation, History)>, ExecError> {
         self.executions += 1;
+        if std::time::Instant::now() > self.deadline {
+            // out of time: behave as "budget exhausted" for every caller
+            self.executions = self.executions.max(self.budget);
+        }
         let h = self.exec.run(&self.cfg, self.start_ms, &self.nonce, steps)?;
         let mut t = Tally::default();
         let mut aux = Aux {
